@@ -250,17 +250,21 @@ package gorm
 //@ # ---------- C14: lock discipline of the prepared-statement cache (premises of the monitor argument) ----------
 //@ ghost held inserted closes prepares spawned prepErr evicted ranged waited usable
 //@ event call (*RWMutex).RLock
+//@   in gorm.(*PreparedStmtDB).* gorm.(*PreparedStmtTX).*
 //@   requires lock-taken-while-free: held == 0 [C14]
 //@   do held = 1
 //@   interference
 //@ event call (*RWMutex).RUnlock
+//@   in gorm.(*PreparedStmtDB).* gorm.(*PreparedStmtTX).*
 //@   requires runlock-while-read-held: held == 1 [C14]
 //@   do held = 0
 //@ event call (*RWMutex).Lock
+//@   in gorm.(*PreparedStmtDB).* gorm.(*PreparedStmtTX).*
 //@   requires lock-taken-while-free: held == 0 [C14]
 //@   do held = 2
 //@   interference
 //@ event call (*RWMutex).Unlock
+//@   in gorm.(*PreparedStmtDB).* gorm.(*PreparedStmtTX).*
 //@   requires unlock-while-write-held: held == 2 [C14]
 //@   do held = 0
 //@ event mapread PreparedStmtDB.Stmts
@@ -272,26 +276,33 @@ package gorm
 //@   requires cache-delete-under-write-lock: held == 2 [C14]
 //@   do evicted = evicted + 1
 //@ event recv
+//@   in gorm.(*PreparedStmtDB).* gorm.(*PreparedStmtTX).*
 //@   requires no-wait-while-locked: held == 0 [C14]
 //@   do waited = 1
 //@   interference
 //@ event invoke ConnPool.PrepareContext
+//@   in gorm.(*PreparedStmtDB).* gorm.(*PreparedStmtTX).*
 //@   requires no-prepare-while-locked: held == 0 [C14]
 //@   do prepares = prepares + 1
 //@   do prepErr = tagof(result1)
 //@ event call database/sql.(*Stmt).ExecContext
+//@   in gorm.(*PreparedStmtDB).* gorm.(*PreparedStmtTX).*
 //@   requires no-exec-while-locked: held == 0 [C14]
 //@ event call database/sql.(*Stmt).QueryContext
+//@   in gorm.(*PreparedStmtDB).* gorm.(*PreparedStmtTX).*
 //@   requires no-query-while-locked: held == 0 [C14]
 //@ event call database/sql.(*Stmt).Close
+//@   in gorm.(*PreparedStmtDB).* gorm.(*PreparedStmtTX).*
 //@   requires no-close-while-locked: held == 0 [C14]
 //@ event mapnext PreparedStmtDB.Stmts
 //@   do ranged = ranged + arg0
 //@ event maplookup PreparedStmtDB.Stmts
 //@   do usable = ite(arg1 && (!arg0.Transaction || isTransaction), 1, 0)
 //@ event close
+//@   in gorm.(*PreparedStmtDB).* gorm.(*PreparedStmtTX).*
 //@   do closes = closes + 1
 //@ event go
+//@   in gorm.(*PreparedStmtDB).* gorm.(*PreparedStmtTX).*
 //@   do spawned = spawned + 1
 
 //@ func (*PreparedStmtDB).prepare
